@@ -11,8 +11,8 @@ use std::path::Path;
 
 pub fn cases(tier: Tier) -> u64 {
     match tier {
-        Tier::Quick => 100000,
-        Tier::Thorough => 2500000,
+        Tier::Quick => 160000,
+        Tier::Thorough => 3000000,
         Tier::Tiny => 16,
     }
 }
